@@ -397,7 +397,11 @@ class Representation:
             where `length` is an integer and `state` is a vertex of
             the automaton. If `None`, use an empty dictionary. In
             either case, the dictionary will be populated when the
-            function is called.
+            function is called. The values depend on the options
+            `maxlen`, `with_words`, `edge_words` and on whether a
+            start or an end state is used: these are recorded under
+            the key `"options"`, and reusing the dictionary with
+            different options raises a ValueError.
         edge_words : bool
             If True, view each label of the given automaton as a word
             in the generators for this representation. Otherwise,
@@ -428,6 +432,18 @@ class Representation:
         if end_state is not None:
             state = end_state
             as_start = False
+
+        if precomputed is not None:
+            # the keys (length, state) do not record the options, so
+            # remember them in the dictionary and refuse to mix values
+            # computed with different ones
+            options = (as_start, maxlen, with_words, edge_words)
+            if precomputed.setdefault("options", options) != options:
+                raise ValueError(
+                    "The precomputed dictionary holds values computed with"
+                    " different options (as_start, maxlen, with_words,"
+                    " edge_words) = {}".format(precomputed["options"])
+                )
 
         result = self._automaton_accepted(automaton, length,
                                           maxlen=maxlen,
